@@ -170,6 +170,8 @@ def check(case, obs):
         ch_arg = names[sel[0]]
     else:
         ch_arg = [_spell(j, sp, names, False) for j, sp in zip(sel, case['spell'])]
+        if case.get('cut', 0) % 3 == 1:
+            ch_arg = tuple(ch_arg)               # a tuple of channels is a sequence like a list
     is_list = form in ('absent', 'list', 'list1')
     cols = [[row[j] for row in cells] for j in range(D)]
     refs = [reference(c) for c in cols]
